@@ -1,6 +1,7 @@
 """C05 — A* and breadth-first search return valid minimum-cost / minimum-step paths.
 Monitor: boundary recording of plan_on (result, exceptions incl. the algorithm's own assertions).
 Oracle: own Dijkstra / BFS levels on the generated digraph (exact integer arithmetic)."""
+import numpy as np
 import heapq
 
 PROP = "C05"
@@ -15,6 +16,21 @@ RULE = ("random digraphs (1-12 nodes, integer costs 0..5, zero-cost edges/cycles
         "reachable from a start with successors.")
 ASSUMPTIONS = ["heuristics are finite (nodes that cannot reach a goal get 1+sum(costs), still consistent)",
                "the constructor's own seed/tie-break precondition is respected"]
+
+
+def gen_big_graph(rng):
+    """hundreds of nodes, tens of actions per node, costs 1..30: search frontiers of thousands of entries, most of them superseded"""
+    n = rng.choice([150, 300, 450])
+    na = rng.choice([20, 40, 60])
+    nodes = list(range(n))
+    acts = ["a%d" % i for i in range(na)]
+    edges = {}
+    for s in nodes:
+        for a in acts:
+            edges[(s, a)] = (rng.randrange(n), rng.randint(1, 30))
+    goals = set(rng.sample(nodes, rng.choice([1, 2])))
+    start = rng.choice([x for x in nodes if x not in goals])
+    return nodes, acts, edges, goals, start
 
 
 def gen_graph(rng, n_max):
@@ -96,7 +112,12 @@ def run_case(case, rng):
 
     n_max = 12 if case.tier == "thorough" else 9
     nodes, acts, edges, goals, start = gen_graph(rng, n_max)
-    pres = rng.choice(["dsp", "quick_next_state", "det", "dict1", "uniform1"])
+    pres = rng.choice(["dsp", "quick_next_state", "det", "dict1", "uniform1", "from_matrices"])
+    big = rng.random() < (0.012 if case.tier == "quick" else 0.001)
+    if big:
+        nodes, acts, edges, goals, start = gen_big_graph(rng)
+        pres = rng.choice(["dsp", "quick_next_state"])
+        case.count("big_dense_graphs")
     actions_of = {s: tuple(a for a in acts if (s, a) in edges) for s in nodes}
 
     def next_state(s, a):
@@ -116,6 +137,25 @@ def run_case(case, rng):
             def actions(self, s): return actions_of[s]
             def is_absorbing(self, s): return is_abs(s)
         prob = G()
+    elif pres == "from_matrices":
+        # a tabular MDP rebuilt from 0/1 arrays (what TabularMarkovDecisionProcess.from_matrices hands back)
+        from msdm.core.mdp import TabularMarkovDecisionProcess
+        S_ = list(nodes)
+        rng.shuffle(S_)
+        A_ = list(acts)
+        si_ = {s: i for i, s in enumerate(S_)}
+        T_ = np.zeros((len(S_), len(A_), len(S_)))
+        R_ = np.zeros((len(S_), len(A_), len(S_)))
+        AM_ = np.zeros((len(S_), len(A_)))
+        for (s, a), (t, c) in edges.items():
+            T_[si_[s], A_.index(a), si_[t]] = 1.0
+            R_[si_[s], A_.index(a), si_[t]] = -c
+            AM_[si_[s], A_.index(a)] = 1.0
+        init_ = np.zeros(len(S_))
+        init_[si_[start]] = 1.0
+        prob = TabularMarkovDecisionProcess.from_matrices(
+            state_list=tuple(S_), action_list=tuple(A_), initial_state_vec=init_, transition_matrix=T_, action_matrix=AM_,
+            reward_matrix=R_, absorbing_state_vec=np.array([s in goals for s in S_]), discount_rate=1.0)
     elif pres == "quick_next_state":
         prob = QuickMDP(next_state=next_state, initial_state=start, reward=reward,
                         actions=lambda s: actions_of[s], is_absorbing=is_abs)
